@@ -1648,6 +1648,76 @@ def round5_cases(rng, tier):
             yield Case("mem.arith", ["gcdext", f, hx(b * g), hx(a * g)])
 
 
+def round6_cases(rng, tier):
+    """mem.arith, round 6: IBig's Euclidean division family (div_ops.rs impl_ibig_div_euclid / rem_euclid / divrem_euclid): classes
+    from the branch conditions — sign of the dividend x remainder zero / non-zero (second add_one on the quotient, by-value
+    subtraction mag1 - r), sign of the divisor, operand lengths across the inline boundary in both positions, lhs shorter than
+    rhs, quotient 2^(64k) - 1 (add_one carries: leaves the inline form for k = 2, push_resizing for k >= 3), remainder 1 and
+    |b| - 1 (the subtraction borrows through / leaves one word: buffer released), small remainder of a large divisor
+    (sub_large_dword), zero divisor in every form and sign (by-value divisor dropped by unwinding)"""
+    forms = ["rr", "rv", "vr", "vv"]
+    ops = ("idiveuc", "iremeuc", "idivremeuc")
+
+    def operand(n, pat):
+        return nat_pattern(rng, n, pat) if n else 0
+
+    dl = [0, 1, 2, 3, 4, 5, 9, 17] if tier == "quick" else [0, 1, 2, 3, 4, 5, 6, 9, 12, 17, 24, 40]
+    reps = 1 if tier == "quick" else 4
+    for _ in range(reps):
+        for la in dl:
+            for lb in dl:
+                for f in forms:
+                    a = operand(la, rng.choice(["random", "ones", "topone"]))
+                    b = operand(lb, rng.choice(["random", "random", "one", "pow2", "highbit", "ones"]))
+                    r = rng.random()
+                    if r < 0.2 and b:
+                        a = a - a % b                                   # remainder 0: no fix-up, by-value divisor dropped
+                    elif r < 0.3:
+                        b = a
+                    elif r < 0.4 and b:
+                        a = a - a % b + rng.choice([1, b - 1])          # remainder 1 / |b| - 1
+                    elif r < 0.5 and b > 1 and la >= lb:
+                        # quotient 2^(64k) - 1, remainder non-zero: add_one carries into a new word
+                        k = max(la - lb, 1)
+                        a = ((1 << (64 * k)) - 1) * b + rng.randrange(1, b)
+                    # the dividend's sign decides the path: negative three times out of four
+                    sa = rng.choice([1, -1, -1, -1])
+                    sb = rng.choice([1, -1])
+                    for op in ops:
+                        if rng.random() < (0.7 if tier == "quick" else 1.0):
+                            yield Case("mem.arith", [op, f, hx(sa * a), hx(sb * b)])
+    # directed: every form x divisor sign for the carry / borrow corners, k words
+    for k in (1, 2, 3, 4, 8):
+        for lb in (1, 2, 3, 5):
+            b = operand(lb, "random") | 2
+            for f in forms:
+                sb = rng.choice([1, -1])
+                q = (1 << (64 * k)) - 1
+                for rm in (1, b - 1, b >> 1):
+                    op = rng.choice(ops) if tier == "quick" else None
+                    for o in ([op] if op else ops):
+                        yield Case("mem.arith", [o, f, hx(-(q * b + rm)), hx(sb * b)])
+                yield Case("mem.arith", [rng.choice(ops), f, hx(-(q * b)), hx(sb * b)])          # exact: no carry although q is all ones
+    # |a| < |b| with a negative dividend: q = 0 -> -1 (or +1), r = |b| - |a| (high words cancel: buffer released / kept)
+    for lb in (1, 2, 3, 4, 9):
+        b = operand(lb, "random")
+        for a in (1, b - 1, b >> 1, b >> 64, b - (b >> 64 if lb > 1 else 1), b & ((1 << 64) - 1) or 1):
+            if 0 < a < b:
+                for f in forms:
+                    for o in ops:
+                        if tier == "thorough" or rng.random() < 0.5:
+                            yield Case("mem.arith", [o, f, hx(-a), hx(rng.choice([1, -1]) * b)])
+    # zero divisor: every op, form, dividend sign and size
+    for o in ops:
+        for f in forms:
+            for a in (0, 5, -5, operand(4, "random"), -operand(4, "random")):
+                yield Case("mem.arith", [o, f, hx(a), hx(0)])
+    # divide-and-conquer scratch block under the Euclidean fix-up
+    for (la, lb) in [(70, 34), (66, 33)] + ([(140, 70), (300, 150)] if tier == "thorough" else []):
+        for f in forms:
+            yield Case("mem.arith", [rng.choice(ops), f, hx(-operand(la, "random")), hx(rng.choice([1, -1]) * operand(lb, "random"))])
+
+
 def extreme_cases(rng, tier):
     """ROUND4 addendum E1: every usize argument of the mirrored public operations (shift counts, bit indices, bit counts,
     exponents) at 0, 1, W-1, W, W+1, 2W, 2^31, 2^32-1, 2^32, 2^32+k, 2^63, usize::MAX-k — on inline, 3-word and larger values.
@@ -1720,6 +1790,7 @@ def generate(rng, tier):
     yield from sqrt_cases(rng, tier)
     yield from with_assign_forms(rng, ibit_cases(rng, tier))
     yield from round5_cases(rng, tier)
+    yield from round6_cases(rng, tier)
     yield from extreme_cases(rng, tier)
     yield from clone_from_ladder(rng, tier)
     yield from buf_cases(rng, tier)
